@@ -153,6 +153,8 @@ func SortFn(order string) iface.EntrySortFn {
 		return sorting.SortByEntryHash
 	case "revhash":
 		return RevHash
+	case "fww":
+		return sorting.FirstWriteWins
 	}
 	panic("unknown order " + order)
 }
